@@ -1,6 +1,7 @@
 import Driver.Proto
 import RsModel.Model.EqHash
 import RsModel.Model.Json
+import RsModel.Model.Conc
 /-!
 # `rsdriver`: reads protocol requests on stdin, answers on stdout, one line each.
 State: named trees and the store of cached maps (persisting until `reset`).
@@ -52,6 +53,37 @@ def ropeObs (r : Rope) : String :=
     if a > b ∨ b > r.len then "-" else if !r.sliceUnsafeOK a b then "U" else match r.byteSlice a b with | .ok x => showText x.render | .error _ => "-"
   let ci := r.charIndices.map fun (i, c) => s!"{i}:{c}"
   s!"len {r.len} empty {showBool r.isEmpty} text {showText t} bytes {" ".intercalate bytes} ci {",".intercalate ci} lines {showList (fun x => showText x.render) (r.linesR true)} endsnl {showBool (r.endsWith NL)} endsa {showBool (r.endsWith 97)} eqstr {showTrapB (r.eqStr t)} slices {" ".intercalate (slices.map (",".intercalate ·))}"
+
+/-- steps without a schedule point of their own (the thread-local end of `clone`, the initialisation inside
+`get_or_init`) happen right after the access that precedes them -/
+def concStep (s : Conc.Sys) (i : Nat) : Option Conc.Sys :=
+  match Conc.step s i with
+  | none => none
+  | some s' =>
+    match s'.ths[i]? with
+    | some t =>
+      match t.ops.head?, t.pc with
+      | some .clone, 2 => some ((Conc.step s' i).getD s')
+      | some .once, 1 => some ((Conc.step s' i).getD s')
+      | _, _ => some s'
+    | none => some s'
+
+/-- replay of an observed order of steps (C18): a step that is disabled in the model (blocked on the shard lock)
+is deferred and retried after every later step -/
+def concReplay (s : Conc.Sys) : List Nat → List Nat → Conc.Sys × List Nat
+  | pending, [] => (s, pending)
+  | pending, i :: rest =>
+    match concStep s i with
+    | some s' =>
+      -- retry deferred steps, in order
+      let (s'', pend') := pending.foldl (fun (acc : Conc.Sys × List Nat) j =>
+        match concStep acc.1 j with | some x => (x, acc.2) | none => (acc.1, acc.2 ++ [j])) (s', [])
+      concReplay s'' pend' rest
+    | none => concReplay s (pending ++ [i]) rest
+
+def pOp : P Conc.Op := fun ts => match ts with
+  | "s" :: ts => some (.sorted, ts) | "c" :: ts => some (.clone, ts) | "m" :: ts => some (.cmap, ts)
+  | "t" :: ts => some (.cstream, ts) | "o" :: ts => some (.once, ts) | _ => none
 
 structure DState where
   trees : List (String × Src) := []
@@ -127,6 +159,16 @@ def step (d : DState) (line : String) : DState × String :=
   | ["json-parse", s] =>
     match pText [s] with
     | some (t, _) => (d, showOpt showSMap (Json.fromJson t))
+    | none => bad
+  | "conc" :: rest =>
+    match pList (pList pOp) rest with
+    | some (progs, rest2) =>
+      match pList pNat rest2 with
+      | some (sched, []) =>
+        let (fin, pend) := concReplay (Conc.initSys progs) [] sched
+        let oks := fin.ths.map fun t => showBool t.ok ++ (if t.ops.isEmpty then "d" else "u")
+        (d, s!"ok {" ".intercalate oks} entry {match fin.sh.entry with | none => "-" | some .M => "M" | some .S => "S"} flag {showBool fin.sh.flag} idx {showBool fin.sh.idxSorted} once {showBool fin.sh.once} lock {showOpt toString fin.sh.lock} pending {pend.length}")
+      | _ => bad
     | none => bad
   | "enc" :: c :: rest =>
     match pBool [c], pList pMapping rest with
